@@ -302,6 +302,7 @@ def _context_contracts(cls):
             ensures=[("class-invariant-kept", inv_kept)],
             raises=[Raises("Exception", sub=True, label="any failure of the member access: class invariant kept", when=inv_kept)],
             note="under the class invariant established by __init__: every member access goes to the accepted open handle",
+            modifies=("self",),   # a method may keep book in other attributes (a closed flag, a cache); the handle is under the invariant
             inline=True,      # the contract speaks about ghost state (which containers are open): callers inside the pack run the body
         ))
     return out
